@@ -673,7 +673,7 @@ fn cond_to_node(c: &Cond, ty: &str) -> ReteUlNode {
                 Val::S(s) => s.clone(),
                 Val::B(b) => b.to_string(),
                 Val::Nan => "NaN".to_string(),
-                Val::X(s) => s.clone(),
+                Val::X(s) | Val::Big(s) => s.clone(),
             },
         }),
         Cond::And(a, b) => ReteUlNode::UlAnd(Box::new(cond_to_node(a, ty)), Box::new(cond_to_node(b, ty))),
@@ -692,7 +692,7 @@ fn apply_acts_flat(acts: &[Act], facts: &mut HashMap<String, String>) {
                     Val::S(s) => s.clone(),
                     Val::B(b) => b.to_string(),
                     Val::Nan => "NaN".to_string(),
-                    Val::X(s) => s.clone(),
+                    Val::X(s) | Val::Big(s) => s.clone(),
                 };
                 facts.insert(format!("{}.{}", ty, field), v);
             }
@@ -719,7 +719,7 @@ fn flat_facts(c: &TermCase) -> HashMap<String, String> {
                 Val::S(s) => s.clone(),
                 Val::B(b) => b.to_string(),
                 Val::Nan => "NaN".to_string(),
-                Val::X(s) => s.clone(),
+                Val::X(s) | Val::Big(s) => s.clone(),
             };
             m.insert(format!("{}.{}", t, k), s);
         }
